@@ -64,13 +64,16 @@ def sourceHashes : List (String × String) :=
 -- marking of multi-variable `:=`; d26dd9e getFunc without the reset of its temporary slot, newCallFrame; 716c992 rangeInt copies the bound
 -- (fact "rangeInt keeps the value object of the bound" false: F51 repaired); 26ad67e isLoopVarCopy — a define of the loop variable's name
 -- in the loop body takes a slot of its own (fact "… is a nop" false: F52 repaired).
+-- Last sync (/repo at fb8122a): dc95f3e gives frames an `epoch` (newFrame inherits it, clone copies it), newCallFrame(interp, anc, n, e) now
+-- builds the frame itself — `anc: anc`, `data: make(…, length)`, run id / done / dead id from the interpreter and the epoch — and getFunc
+-- passes `n.interp, fr, …, fr.getEpoch()`: the call frame's ancestor is still the clone, one frame per call; cancellation is not modelled.
 /-- fingerprints of the functions and clauses Model/Closures.lean transcribes -/
 def closureHashes : List (String × String) :=
-  [("newFrame", "da1db819d5067f56"),
-   ("newCallFrame", "43aa5e7f13021a5b"),
-   ("frame.clone", "ccd71f62c6588b0a")] ++
+  [("newFrame", "8d3a53ebf9cf8afa"),
+   ("newCallFrame", "40f1e0d7f7a1dce0"),
+   ("frame.clone", "288c927fcf00073e")] ++
   [("getFrame", "48dc117bdbd1af33"),
-   ("getFunc", "767f1bf470b0d0fd"),
+   ("getFunc", "b1cec79847c23ec5"),
    ("assignFromCall", "68cf8ed8c8ebe68c"),
    ("loopVarFor", "e36ed4f219e83478"),
    ("loopVarForEnd", "fe93ec26819e3e17"),
